@@ -22,4 +22,14 @@ def frozenOverrides : List (String × Bool) := [
   ("sort", true)
 ]
 
+/-- how an argument is passed to a comptime function -/
+inductive ArgMode where | owned | borrowed | byValue deriving DecidableEq, Repr
+
+/-- `trace_function`: the `frozen=` expression of the inputs' `unpack_guppy_object` call, evaluated per mode;
+    `none`: the expression was not found / could not be evaluated -/
+def frozenRule : ArgMode → Option Bool
+  | .owned => some true
+  | .borrowed => some false
+  | .byValue => some true
+
 end GuppyVerif.TraceOwn
